@@ -9,10 +9,11 @@ LEVEL_TEXT = (
     'overwrites an existing discovery; simulation records only at a dead end or closed cycle) plus '
     'bit bookkeeping (bits are indexed by the position in the properties() iteration at set, clear '
     'and test sites; set only for Expectation::Eventually; successors inherit a clone of the bits '
-    'cleared in this iteration). Does not decide exactness on forest-shaped models as a semantic '
-    'statement.')
+    'cleared in this iteration), plus the coverage rules of C01 that "exact on forests" presupposes. '
+    'Exactness on forest-shaped models as a semantic statement is not decided.')
 
-FLOORS = {'C03-R2': 3, 'C03-R3': 4, 'C03-R4': 1, 'C11-R1': 14}
+FLOORS = {'C03-R2': 3, 'C03-R3': 4, 'C03-R4': 1, 'C11-R1': 14, 'C01-R1': 3, 'C01-R2': 3, 'C01-R3': 12,
+          'C01-R4': 5, 'C01-R5': 3, 'C01-R7': 5, 'C01-R9': 3, 'C01-R10': 4}
 
 
 def enumerate_index_of_properties(b, v):
@@ -123,3 +124,6 @@ def run(ctx):
     with ctx.rule('C03-R4', 'SIM'):
         c03.r4_sim_end(ctx, F)
     r1_bits(ctx, F)
+    # exactness on forests presupposes that every reachable in-boundary state is evaluated
+    import c01
+    c01.coverage_rules(ctx, F)
